@@ -404,7 +404,9 @@ func init() {
 					bad := g.msg(t.ID, true, 0)
 					bad.Fs[op.Key] = kv
 					if wire, ok := renderPinned(bad); ok {
-						bads = append(bads, badItem{t.ID, wire, goDec(t.ID, wire, BufMode{}).Class})
+						// expected outcome by the property itself (an unregistered key is an error); NOT pre-computed by a sequential
+						// decode, so that the first look-up of each unknown key happens inside the parallel phase
+						bads = append(bads, badItem{t.ID, wire, "err"})
 					}
 				}
 			}
